@@ -360,6 +360,31 @@ def check(cx):
         r = a.ret
         K = ('seq', 'knots')
         seq = r.fields[0].seq if isinstance(r, Struct) and r.path == 'piecewise::Piecewise' and isinstance(r.fields[0], VecV) else None
+        if isinstance(r, SelV):
+            # a split on the number of knots that the entry assertion (at least two) already decides
+            from .panics import entails
+            from ..terms import mk_not
+            for _ in range(3):
+                if isinstance(r, SelV):
+                    facts_ = [('icmp', 'ge', ('len', K), ('ic', 2))]
+                    if entails(facts_, r.cond):
+                        r = r.a
+                    elif entails(facts_, mk_not(r.cond)):
+                        r = r.b
+                    else:
+                        break
+            seq = r.fields[0].seq if isinstance(r, Struct) and r.path == 'piecewise::Piecewise' and isinstance(r.fields[0], VecV) else None
+        for _ in range(3):
+            if isinstance(seq, SelV):
+                from .panics import entails
+                from ..terms import mk_not
+                facts_ = [('icmp', 'ge', ('len', K), ('ic', 2))]
+                if entails(facts_, seq.cond):
+                    seq = seq.a
+                elif entails(facts_, mk_not(seq.cond)):
+                    seq = seq.b
+                else:
+                    break
         if isinstance(seq, SeqMap) and general_pairs(cx, rep, inst, file, line, flin, it, st, seq, K):
             return
         if not isinstance(seq, SeqScan):
